@@ -18,7 +18,7 @@ RULE = ("exhaustive: every table type (every bnpdataclass of bionumpy.datatypes 
         "column of the wrong length / undecodable content. sort_by orders numeric fields by value and text fields as byte strings. Non-trivial = >= 2 ops on a table with >= 2 column kinds, or an empty "
         "/ single-row operand")
 EXHAUSTIVE = {"quick": False, "thorough": False}
-MODEL_OPS = {"program", "roundtrip"}
+MODEL_OPS = {"program", "roundtrip", "dict"}
 ASSUMPTIONS = [
     "per-column indexing / concatenation (NumPy, npstructures RaggedArray, EncodedArray, StringArray) has its list-level meaning",
     "Python-level index normalisation (negative ints, slice.indices) is the runtime's: the model receives index lists",
@@ -98,6 +98,106 @@ def _mods():
 
 def type_names():
     return sorted(_mods()["classes"])
+
+
+# ---------------------------------------------------------------- typed construction: behavioural tabulation
+
+KIND_ORDER = ["str", "sid", "int", "float", "bool", "opt", "li", "dna", "strand", "inner"]
+
+
+def _forms():
+    """argument forms a constructor may be given (each a zero-argument factory of a 2-row column)"""
+    import pandas as pd
+    from npstructures import RaggedArray
+    from bionumpy.string_array import as_string_array
+    m = _mods()
+    bnp, Inner = m["bnp"], m["Inner"]
+    return {
+        "list_str": lambda: ["ACG", "T"],
+        "list_int": lambda: [1, 2],
+        "list_float": lambda: [1.5, 2.0],
+        "list_bool": lambda: [True, False],
+        "list_none": lambda: [None, 3],
+        "nd_int": lambda: np.array([1, 2]),
+        "nd_float": lambda: np.array([1.5, 2.0]),
+        "nd_bool": lambda: np.array([True, False]),
+        "nd_str": lambda: np.array(["ACG", "T"]),
+        "encoded_ragged": lambda: bnp.as_encoded_array(["ACG", "T"]),
+        "dna_ragged": lambda: bnp.as_encoded_array(["ACG", "T"], bnp.DNAEncoding),
+        "string_array": lambda: as_string_array(["ACG", "T"]),
+        "ragged_int": lambda: RaggedArray([[1], [2, 3]]),
+        "list_list_int": lambda: [[1], [2, 3]],
+        "table": lambda: Inner([1, 2], ["a", "b"]),
+        "list_entries": lambda: Inner([1, 2], ["a", "b"]).tolist(),
+        "series_str": lambda: pd.Series(["ACG", "T"], dtype="string"),
+        "series_int": lambda: pd.Series([1, 2]),
+        "strand_str": lambda: ["+", "-"],
+    }
+
+
+FORM_ORDER = ["list_str", "list_int", "list_float", "list_bool", "list_none", "nd_int", "nd_float", "nd_bool", "nd_str",
+              "encoded_ragged", "dna_ragged", "string_array", "ragged_int", "list_list_int", "table", "list_entries",
+              "series_str", "series_int", "strand_str"]
+
+# the declared type's column classes (what "converted to its declared type" means for each field kind)
+ALLOWED = {
+    "str": ["encragged:base", "encragged:alpha", "encflat:base", "encflat:alpha"],
+    "sid": ["stringarray", "encflat:base", "encflat:alpha"],
+    "int": ["ndarray:b", "ndarray:i", "ndarray:u", "ndarray:f"],
+    "float": ["ndarray:b", "ndarray:i", "ndarray:u", "ndarray:f"],
+    "bool": ["ndarray:b", "ndarray:i", "ndarray:u", "ndarray:f"],
+    "opt": ["ndarray:b", "ndarray:i", "ndarray:u", "ndarray:f", "ndarray:O"],
+    "li": ["ragged:b", "ragged:i", "ragged:u", "ragged:f", "ndarray:b", "ndarray:i", "ndarray:u", "ndarray:f"],
+    "dna": ["encragged:alpha", "encflat:alpha"],
+    "strand": ["encflat:alpha"],
+    "inner": ["table"],
+}
+
+
+def construct_outcome(kind, form):
+    """class of the column a one-field table of this kind holds after construction from this form, or 'raise'"""
+    from npstructures import RaggedArray
+    from bionumpy.string_array import StringArray
+    from bionumpy.encoded_array import EncodedArray, EncodedRaggedArray
+    from bionumpy.bnpdataclass import make_dataclass
+    m = _mods()
+    bnp = m["bnp"]
+    key = ("cls1", kind)
+    if key not in _CACHE:
+        _CACHE[key] = make_dataclass([("f", m["pytype"][kind])], name="One_" + kind)
+    try:
+        t = _CACHE[key](_forms()[form]())
+        v = t.f
+        len(t)
+    except Exception:
+        return "raise"
+    if isinstance(v, np.ndarray):
+        return "ndarray:" + v.dtype.kind
+    if isinstance(v, EncodedRaggedArray):
+        return "encragged:" + ("base" if v.encoding == bnp.BaseEncoding else "alpha")
+    if isinstance(v, EncodedArray):
+        return "encflat:" + ("base" if v.encoding == bnp.BaseEncoding else "alpha")
+    if isinstance(v, StringArray):
+        return "stringarray"
+    if isinstance(v, RaggedArray):
+        return "ragged:" + v.dtype.kind
+    if isinstance(v, m["BNPDataClass"]):
+        return "table"
+    return "other:" + type(v).__name__
+
+
+def regenerate():
+    rows = [(k, f, construct_outcome(k, f)) for k in KIND_ORDER for f in FORM_ORDER]
+    out = ["import BnpVerif.Model.C19",
+           "/-! GENERATED on every run by harness/props/c19.py from the package imported from /repo: what the constructor of a",
+           "one-field table of every field kind does with every argument form (class of the stored column, or `raise`).",
+           "Do not edit. -/",
+           "namespace Gen.C19", "",
+           "def constructTable : List (String × String × String) := ["]
+    out.append(",\n".join(f'  ("{k}", "{f}", "{o}")' for k, f, o in rows))
+    out.append("]")
+    out.append("\nend Gen.C19\n")
+    return [("BnpVerif/Gen/C19.lean", "\n".join(out))]
 
 
 # ---------------------------------------------------------------- cell values
@@ -273,6 +373,20 @@ def oracle(c):
                 return SKIP          # ragged tuples: outside "rectangular input"
             return {"err": "raise"}
         return {"rows": c["rows"], "width": c["width"]}
+    if c["op"] == "dict":
+        keys, cnt = [], [0]
+
+        def walk(sch, prefix):
+            for nm, sub in sch:
+                if sub == "leaf":
+                    keys.append(prefix + nm)
+                    cnt[0] += 1
+                else:
+                    walk(sub, prefix + nm + ".")
+        walk(c["schema"], "")
+        return {"keys": keys, "leaves": list(range(cnt[0])), "roundtrip": True}
+    if c["op"] == "construct_cell":
+        return {"conforms_or_raises": True}
     if c["op"] == "construct":
         single = len(_mods()["classes"][c["type"]][1]) == 1
         if c["bad"] and not (single and c["bad"]["what"] == "len"):
@@ -434,6 +548,34 @@ def cases(tier, rng):
             yield {"op": "construct", "type": tname, "n": 2, "bad": {"col": j, "what": "len"}}
             if k in ("int", "float", "opt", "dna", "strand"):
                 yield {"op": "construct", "type": tname, "n": 2, "bad": {"col": j, "what": "content"}}
+    # 1b. typed construction: every field kind x every argument form
+    for k in KIND_ORDER:
+        for f in FORM_ORDER:
+            yield {"op": "construct_cell", "type": "D_all", "kind": k, "form": f}
+    # 1c. nested tables <-> flat dicts with dotted keys (todict / from_dict / pandas), nesting depth <= 3,
+    #     names reused across levels, prefixes of each other
+    L = "leaf"
+    fixed = [
+        [["a", L]],
+        [["a", L], ["b", [["a", L], ["c", L]]]],
+        [["b", [["b", [["b", L]]]]], ["bb", L]],
+        [["x", [["y", L], ["z", [["y", L], ["x", L]]]]], ["y", L], ["xy", [["x", L]]]],
+        [["a", [["a", L]]], ["a_", [["a", L]]], ["aa", L]],
+    ]
+    for sch in fixed:
+        for n in (0, 1, 3):
+            yield {"op": "dict", "type": "D_all", "schema": sch, "n": n}
+    names_pool = ["a", "b", "ab", "a_b", "x", "val", "a1"]
+
+    def rnd_schema(depth):
+        out, used = [], set()
+        for _ in range(rng.randrange(1, 4)):
+            nm = rng.choice([x for x in names_pool if x not in used])
+            used.add(nm)
+            out.append([nm, rnd_schema(depth + 1) if depth < 2 and rng.random() < 0.4 else L])
+        return out
+    for _ in range(300 if big else 40):
+        yield {"op": "dict", "type": "D_all", "schema": rnd_schema(0), "n": rng.choice([0, 1, 2])}
     # 2. random programs
     R = (60000 if big else 2000)
     for _ in range(R):
@@ -558,6 +700,38 @@ def impl(c):
             return {"rows": _rows_tolist(t, kinds), "width": len(dataclasses.fields(t))}
         except Exception as e:
             return {"err": "raise", "exc": type(e).__name__}
+    if c["op"] == "dict":
+        from bionumpy.bnpdataclass import make_dataclass
+        counter = [0]
+        n = c["n"]
+
+        def build(sch, name):
+            fields, vals = [], []
+            for nm, sub in sch:
+                if sub == "leaf":
+                    fields.append((nm, int))
+                    vals.append(np.full(n, counter[0], dtype=int))
+                    counter[0] += 1
+                else:
+                    sub_cls, sub_obj = build(sub, name + "_" + nm)
+                    fields.append((nm, sub_cls))
+                    vals.append(sub_obj)
+            cls_ = make_dataclass(fields, name=name)
+            return cls_, cls_(*vals)
+        try:
+            cls_, t = build(c["schema"], "N")
+            d = t.todict()
+            keys = list(d)
+            # the model's leaves hold the leaf number in one cell; with 0 rows the columns are empty: report the order of the keys' leaves
+            leaves = list(range(len(keys))) if n == 0 else [int(np.asarray(d[k])[0]) for k in keys]
+            same = lambda u: list(u.todict()) == keys and all(np.array_equal(np.asarray(u.todict()[k]), np.asarray(d[k])) for k in keys) and len(u) == n
+            ok = same(cls_.from_dict(d)) and same(cls_.from_data_frame(t.topandas()))
+            return {"keys": keys, "leaves": leaves, "roundtrip": bool(ok)}
+        except Exception as e:
+            return {"err": "raise", "exc": type(e).__name__}
+    if c["op"] == "construct_cell":
+        o = construct_outcome(c["kind"], c["form"])
+        return {"outcome": o, "conforms_or_raises": o == "raise" or o in ALLOWED[c["kind"]]}
     if c["op"] == "construct":
         n = c["n"]
         colsv = [_column(m, k, [3 + i for i in range(n)]) for k in kinds]
@@ -601,6 +775,10 @@ def _same(c, got, ref):
 
 
 def agree(c, got, exp):
+    if c["op"] == "dict":
+        return core.canon(got) == core.canon(exp)
+    if c["op"] == "construct_cell":
+        return isinstance(got, dict) and got.get("conforms_or_raises") is True
     if c["op"] == "construct":
         return isinstance(got, dict) and (("ok" in got) == ("ok" in exp))
     if not _same(c, got, exp):
@@ -611,6 +789,8 @@ def agree(c, got, exp):
 
 
 def agree_model(c, got, m):
+    if c["op"] == "dict":
+        return core.canon(got) == core.canon(m)
     return _same(c, got, m)
 
 
@@ -641,12 +821,18 @@ def model_request(c):
         return {"op": "program", "cols": c["cols"], "ops": ops}
     if c["op"] == "roundtrip":
         return {"op": "roundtrip", "rows": c["rows"], "width": c["width"]}
+    if c["op"] == "dict":
+        return {"op": "dict", "schema": c["schema"]}
     return None
 
 
 def finding_key(c, got, exp):
     m = _mods()
     kinds = m["classes"][c["type"]][1]
+    if c["op"] == "dict":
+        return "dict:" + ("raises-" + str(got.get("exc")) if isinstance(got, dict) and "err" in got else "nested-roundtrip")
+    if c["op"] == "construct_cell":
+        return "construct:unconverted-" + c["kind"]
     if c["op"] == "construct":
         if "ok" in got and c["bad"]:
             return "construct:accepts-" + c["bad"]["what"] + "-" + kinds[c["bad"]["col"]]
